@@ -112,6 +112,22 @@ fn main() -> Result<()> {
             let tag = arg_value(&args, "--tag").unwrap_or("u".into());
             r#gen::runes(seed * 1000 + i, &format!("{tag}x{i}"), blocks, &flags)
           }
+          "crashpair" => {
+            let p = r#gen::ProtoCfg {
+              ci: arg_value(&args, "--ci").map(|s| s.parse().unwrap()).unwrap_or(5000),
+              si: arg_value(&args, "--si").map(|s| s.parse().unwrap()).unwrap_or(10),
+              ms: arg_value(&args, "--ms").map(|s| s.parse().unwrap()).unwrap_or(2),
+              flags: flags.iter().map(|s| s.to_string()).collect(),
+            };
+            let tag = arg_value(&args, "--tag").unwrap_or("cp".into());
+            let g = |k: &str, d: usize| arg_value(&args, k).map(|s| s.parse().unwrap()).unwrap_or(d);
+            let pair = r#gen::crash_pair(seed + i, &tag, &p, &arg_value(&args, "--point").unwrap_or("post_commit_main".into()),
+              g("--occ", 1) as u64, g("--pre", 3), g("--more", 5), g("--later", 1), g("--depth", 2));
+            for sc in &pair {
+              writeln!(f, "{}", serde_json::to_string(sc)?)?;
+            }
+            continue;
+          }
           "reorg" | "proto" | "sched" | "crash" => {
             let p = r#gen::ProtoCfg {
               ci: arg_value(&args, "--ci").map(|s| s.parse().unwrap()).unwrap_or(5000),
